@@ -47,6 +47,7 @@ def TSet(e): return Ty('set', e)
 def TObj(c): return Ty('obj', c)
 def TOpt(b): return b if b.kind == 'opt' else Ty('opt', b)
 def TSeq(e): return Ty('seq', e)
+def TFSet(e): return Ty('fset', e)      # immutable collection value supporting only `in` (tuple/list/frozenset constants)
 
 
 _ATOMS = {'int': INT, 'bool': BOOL, 'str': STR, 'None': NONE, 'none': NONE, 'any': ANY, 'text': TEXT}
@@ -68,7 +69,7 @@ def parse_type(s):
             sl = n.slice
             args = [go(x) for x in sl.elts] if isinstance(sl, ast.Tuple) else [go(sl)]
             return {'list': lambda: TList(*args), 'tuple': lambda: TTuple(*args), 'dict': lambda: TDict(*args),
-                    'set': lambda: TSet(*args), 'opt': lambda: TOpt(*args), 'seq': lambda: TSeq(*args)}[head]()
+                    'set': lambda: TSet(*args), 'fset': lambda: TFSet(*args), 'opt': lambda: TOpt(*args), 'seq': lambda: TSeq(*args)}[head]()
         raise ValueError('bad type %r' % s)
     return go(node)
 
@@ -93,6 +94,7 @@ def sort_of(t):
     elif k == 'any': s = AnyS
     elif k == 'text': s = TextS
     elif k in ('list', 'dict', 'set', 'obj'): s = Ref
+    elif k == 'fset': s = z3.ArraySort(sort_of(t.args[0]), z3.BoolSort())
     elif k == 'tuple':
         sig = tuple(sort_name(sort_of(a)) for a in t.args)
         if sig not in _tuple_dt:
